@@ -229,3 +229,88 @@ def initiated_by_us(facts, fn):
     defs = [st for st in walk_no_defs(fn.node) if isinstance(st, ast.Assign) and any(is_self_attr(t, "closedByMe") for t in st.targets)]
     same = len(defs) == 1 and isinstance(defs[0].value, ast.UnaryOp) and isinstance(defs[0].value.op, ast.Not) and norm.text(defs[0].value.operand) == "isReply"
     return same and ("truth", "isReply", None, False) in facts
+
+
+class _Subst(ast.NodeTransformer):
+    def __init__(self, mapping):
+        self.mapping = mapping
+
+    def visit_Name(self, node):
+        if isinstance(node.ctx, ast.Load) and node.id in self.mapping:
+            import copy
+            return copy.deepcopy(self.mapping[node.id])
+        return node
+
+    def _comp(self, node):
+        bound = {y.id for g in node.generators for y in ast.walk(g.target) if isinstance(y, ast.Name)}
+        saved = self.mapping
+        self.mapping = {k: v for k, v in saved.items() if k not in bound}
+        try:
+            return self.generic_visit(node)
+        finally:
+            self.mapping = saved
+
+    visit_ListComp = visit_SetComp = visit_DictComp = visit_GeneratorExp = _comp
+
+
+def local_canon(fn):
+    """name -> canonical definition expression (AST) for locals of fn that have exactly one plain assignment outside loops;
+    definitions are expanded recursively, so the result only mentions parameters, attributes, constants and multi-def locals.
+    Makes rules independent of how (and whether) intermediate values are named."""
+    import copy
+    counts, defs = {}, {}
+    loop_targets = set()
+    for st in walk_no_defs(fn.node):
+        if isinstance(st, (ast.For, ast.AsyncFor, ast.While)):
+            for x in ast.walk(st):
+                if isinstance(x, ast.Assign):
+                    for t in x.targets:
+                        for y in ast.walk(t):
+                            if isinstance(y, ast.Name):
+                                loop_targets.add(y.id)
+            if not isinstance(st, ast.While):
+                for y in ast.walk(st.target):
+                    if isinstance(y, ast.Name):
+                        loop_targets.add(y.id)
+        tg = []
+        if isinstance(st, ast.Assign):
+            tg = st.targets
+        elif isinstance(st, (ast.AugAssign, ast.AnnAssign)):
+            tg = [st.target]
+        elif isinstance(st, (ast.With, ast.AsyncWith)):
+            tg = [i.optional_vars for i in st.items if i.optional_vars is not None]
+        elif isinstance(st, ast.ExceptHandler) and st.name:
+            counts[st.name] = counts.get(st.name, 0) + 2
+        for t in tg:
+            for y in ast.walk(t):
+                if isinstance(y, ast.Name) and isinstance(y.ctx, (ast.Store, ast.Del)):
+                    counts[y.id] = counts.get(y.id, 0) + (1 if isinstance(st, ast.Assign) and isinstance(t, ast.Name) else 2)
+        if isinstance(st, ast.Assign) and len(st.targets) == 1 and isinstance(st.targets[0], ast.Name):
+            defs[st.targets[0].id] = st
+    params = set(fn.params()) | {a.arg for a in fn.node.args.kwonlyargs}
+    simple = {n: st for n, st in defs.items() if counts.get(n) == 1 and n not in loop_targets and n not in params
+              and not any(isinstance(x, (ast.Lambda, ast.Await, ast.Yield, ast.NamedExpr)) for x in ast.walk(st.value))}
+    out = {}
+    for n in sorted(simple, key=lambda k: simple[k].lineno):
+        e = copy.deepcopy(simple[n].value)
+        e = _Subst({k: v for k, v in out.items() if k != n}).visit(ast.Expression(body=e)).body
+        out[n] = e
+    return out
+
+
+def canon_text(fn, expr, canon=None):
+    """Text of `expr` with single-definition locals expanded."""
+    import copy
+    canon = canon if canon is not None else local_canon(fn)
+    e = _Subst(canon).visit(ast.Expression(body=copy.deepcopy(expr))).body
+    return norm.text(e) or " ".join(ast.unparse(e).split())
+
+
+def name_for(fn, canonical, canon=None):
+    """The local whose canonical definition text is `canonical` (or `canonical` itself when the code does not name the value)."""
+    canon = canon if canon is not None else local_canon(fn)
+    for n, e in canon.items():
+        t = norm.text(e) or " ".join(ast.unparse(e).split())
+        if t == canonical:
+            return n
+    return canonical
